@@ -1376,7 +1376,9 @@ rrul_fill_wly(echs_instant_t *restrict tgt, size_t nti, rrulsp_t rr)
 	}
 
 	/* fill up the array the hard way */
-	for (res = 0UL, maxd = echs_scale_ndim(srcsca, y, m); res < nti;
+	for (res = 0UL, maxd = echs_scale_ndim(srcsca, y, m);
+	     /* and stop at the end of the supported range */
+	     res < nti && y <= 2099U;
 	     ({
 		     d += rr->inter * 7U;
 		     while (d > maxd) {
@@ -1533,7 +1535,8 @@ rrul_fill_dly(echs_instant_t *restrict tgt, size_t nti, rrulsp_t rr)
 	/* fill up the array the hard way */
 	for (res = 0UL, w = echs_scale_wday(srcsca, y, m, d),
 		     maxd = echs_scale_ndim(srcsca, y, m);
-	     res < nti;
+	     /* and stop at the end of the supported range */
+	     res < nti && y <= 2099U;
 	     ({
 		     d += rr->inter;
 		     w += rr->inter;
@@ -1694,7 +1697,8 @@ rrul_fill_Hly(echs_instant_t *restrict tgt, size_t nti, rrulsp_t rr)
 	/* fill up the array the naive way */
 	for (unsigned int w = ymd_get_wday(y, m, d), yd = ymd_get_yd(y, m, d),
 		     maxd = __get_ndom(y, m), maxy = (y % 4U) ? 365 : 366;
-	     res < nti;
+	     /* and stop at the end of the supported range */
+	     res < nti && y <= 2099U;
 	     ({
 		     if ((H += rr->inter) >= 24U) {
 			     d += H / 24U, w += H / 24U, yd += H / 24U;
@@ -1887,7 +1891,8 @@ rrul_fill_Mly(echs_instant_t *restrict tgt, size_t nti, rrulsp_t rr)
 
 	/* fill up the array the naive way */
 	for (unsigned int w = ymd_get_wday(y, m, d), maxd = __get_ndom(y, m);
-	     res < nti;
+	     /* and stop at the end of the supported range */
+	     res < nti && y <= 2099U;
 	     ({
 		     if ((M += rr->inter) >= 60U) {
 			     H += M / 60U, M %= 60U;
@@ -2081,7 +2086,8 @@ rrul_fill_Sly(echs_instant_t *restrict tgt, size_t nti, rrulsp_t rr)
 
 	/* fill up the array the naive way */
 	for (unsigned int w = ymd_get_wday(y, m, d), maxd = __get_ndom(y, m);
-	     res < nti;
+	     /* and stop at the end of the supported range */
+	     res < nti && y <= 2099U;
 	     ({
 		     if ((S += rr->inter) >= 60U) {
 			     M += S / 60U, S %= 60U;
